@@ -508,6 +508,7 @@ dgsisx(superlu_options_t *options, SuperMatrix *A, int *perm_c, int *perm_r,
     if (*info != 0) {
 	int ii = -(*info);
 	input_error("dgsisx", &ii);
+	SLU_VHOOK("P:Phase", "\"name\":\"Rejected\",\"info\":%lld", (long long) *info);
 	return;
     }
 
@@ -522,6 +523,7 @@ dgsisx(superlu_options_t *options, SuperMatrix *A, int *perm_c, int *perm_r,
 			   sp_ienv(1), options->ILU_FillFactor, L, U, Glu, &iwork0, &dwork0);
 	SUPERLU_FREE(Glu->expanders);
 	Glu->expanders = NULL;
+	SLU_VHOOK("P:Phase", "\"name\":\"Query\",\"info\":%lld", (long long) *info);
 	mem_usage->total_needed = *info - A->ncol;
 	return;
     }
@@ -541,6 +543,7 @@ dgsisx(superlu_options_t *options, SuperMatrix *A, int *perm_c, int *perm_r,
 	dCreate_CompCol_Matrix(AA, A->ncol, A->nrow, Astore->nnz,
 			       Astore->nzval, Astore->colind, Astore->rowptr,
 			       SLU_NC, A->Dtype, A->Mtype);
+	SLU_VHOOK("P:Phase", "\"name\":\"Convert\",\"info\":%lld", (long long) *info);
 	if ( notran ) { /* Reverse the transpose argument. */
 	    trant = TRANS;
 	    notran = 0;
@@ -597,6 +600,7 @@ dgsisx(superlu_options_t *options, SuperMatrix *A, int *perm_c, int *perm_r,
 		}
 	    }
 	    utime[EQUIL] = SuperLU_timer_() - t0;
+	    if ( mc64 ) { SLU_VHOOK("P:Phase", "\"name\":\"RowPerm\",\"info\":%lld", (long long) *info); if ( equil ) SLU_VHOOK("P:Phase", "\"name\":\"Equil\",\"info\":%lld", (long long) *info); }
 	}
 
 	if ( mc64==0 && equil ) { /* Only perform equilibration, no row perm */
@@ -611,6 +615,7 @@ dgsisx(superlu_options_t *options, SuperMatrix *A, int *perm_c, int *perm_r,
 		colequ = strncmp(equed, "C", 1)==0 || strncmp(equed, "B", 1)==0;
 	    }
 	    utime[EQUIL] = SuperLU_timer_() - t0;
+	    SLU_VHOOK("P:Phase", "\"name\":\"Equil\",\"info\":%lld", (long long) *info);
 	}
     }
 
@@ -629,17 +634,20 @@ dgsisx(superlu_options_t *options, SuperMatrix *A, int *perm_c, int *perm_r,
 	permc_spec = options->ColPerm;
 	if ( permc_spec != MY_PERMC && options->Fact == DOFACT )
 	    get_perm_c(permc_spec, AA, perm_c);
+	    if ( permc_spec != MY_PERMC && options->Fact == DOFACT ) SLU_VHOOK("P:Phase", "\"name\":\"Order\",\"info\":%lld", (long long) *info);
 	utime[COLPERM] = SuperLU_timer_() - t0;
 
 	t0 = SuperLU_timer_();
 	sp_preorder(options, AA, perm_c, etree, &AC);
 	utime[ETREE] = SuperLU_timer_() - t0;
+	SLU_VHOOK("P:Phase", "\"name\":\"Preorder\",\"info\":%lld", (long long) *info);
 
 	/* Compute the LU factorization of A*Pc. */
 	t0 = SuperLU_timer_();
 	dgsitrf(options, &AC, relax, panel_size, etree, work, lwork,
                 perm_c, perm_r, L, U, Glu, stat, info);
 	utime[FACT] = SuperLU_timer_() - t0;
+	SLU_VHOOK("P:Phase", "\"name\":\"Factor\",\"info\":%lld", (long long) *info);
 
 	if ( lwork == -1 ) {
 	    mem_usage->total_needed = *info - A->ncol;
@@ -661,12 +669,14 @@ dgsisx(superlu_options_t *options, SuperMatrix *A, int *perm_c, int *perm_r,
 
 	    /* Restore A's original row indices. */
 	    for (i = 0; i < nnz; ++i) rowind[i] = iperm[rowind[i]];
+	    SLU_VHOOK("P:Phase", "\"name\":\"RestoreRows\",\"info\":%lld", (long long) *info);
 
 	    SUPERLU_FREE(perm); /* MC64 permutation */
 	    SUPERLU_FREE(perm_tmp);
 	}
 
 	if ( *info > n ) { /* Out of memory: the factors L and U do not exist. */
+	SLU_VHOOK("P:Phase", "\"name\":\"NoMem\",\"info\":%lld", (long long) *info);
 	    Destroy_CompCol_Permuted(&AC);
 	    if ( A->Stype == SLU_NR ) {
 		Destroy_SuperMatrix_Store(AA);
@@ -679,6 +689,7 @@ dgsisx(superlu_options_t *options, SuperMatrix *A, int *perm_c, int *perm_r,
     if ( options->PivotGrowth ) {
 	/* Compute the reciprocal pivot growth factor *recip_pivot_growth. */
 	*recip_pivot_growth = dPivotGrowth(A->ncol, AA, perm_c, L, U);
+	SLU_VHOOK("P:Phase", "\"name\":\"Growth\",\"info\":%lld", (long long) *info);
     }
 
     if ( options->ConditionNumber ) {
@@ -692,6 +703,7 @@ dgsisx(superlu_options_t *options, SuperMatrix *A, int *perm_c, int *perm_r,
 	anorm = dlangs(norm, AA);
 	dgscon(norm, L, U, anorm, rcond, stat, &info1);
 	utime[RCOND] = SuperLU_timer_() - t0;
+	SLU_VHOOK("P:Phase", "\"name\":\"Cond\",\"info\":%lld", (long long) *info);
     }
 
     if ( nrhs > 0 ) { /* Solve the system */
@@ -703,22 +715,26 @@ dgsisx(superlu_options_t *options, SuperMatrix *A, int *perm_c, int *perm_r,
 		for (j = 0; j < nrhs; ++j)
 		    for (i = 0; i < n; ++i)
 		        Bmat[i + j*ldb] *= R[i];
+		        SLU_VHOOK("P:Phase", "\"name\":\"ScaleB\",\"info\":%lld", (long long) *info);
 	    }
 	} else if ( colequ ) {
 	    for (j = 0; j < nrhs; ++j)
 		for (i = 0; i < n; ++i) {
 	            Bmat[i + j*ldb] *= C[i];
 		}
+	        SLU_VHOOK("P:Phase", "\"name\":\"ScaleB\",\"info\":%lld", (long long) *info);
 	}
 
 	/* Compute the solution matrix X. */
 	for (j = 0; j < nrhs; j++)  /* Save a copy of the right hand sides */
 	    for (i = 0; i < B->nrow; i++)
 		Xmat[i + j*ldx] = Bmat[i + j*ldb];
+		SLU_VHOOK("P:Phase", "\"name\":\"CopyBX\",\"info\":%lld", (long long) *info);
 
 	t0 = SuperLU_timer_();
 	dgstrs (trant, L, U, perm_c, perm_r, X, stat, &info1);
 	utime[SOLVE] = SuperLU_timer_() - t0;
+	SLU_VHOOK("P:Phase", "\"name\":\"Solve\",\"info\":%lld", (long long) *info);
 
 	/* Transform the solution matrix X to a solution of the original
 	   system. */
@@ -728,6 +744,7 @@ dgsisx(superlu_options_t *options, SuperMatrix *A, int *perm_c, int *perm_r,
 		    for (i = 0; i < n; ++i) {
                         Xmat[i + j*ldx] *= C[i];
                     }
+                    SLU_VHOOK("P:Phase", "\"name\":\"UnscaleX\",\"info\":%lld", (long long) *info);
 	    }
 	} else { /* transposed system */
 	    if ( rowequ ) {
@@ -735,6 +752,7 @@ dgsisx(superlu_options_t *options, SuperMatrix *A, int *perm_c, int *perm_r,
 		    for (i = 0; i < A->nrow; ++i) {
               	        Xmat[i + j*ldx] *= R[i];
                     }
+              	    SLU_VHOOK("P:Phase", "\"name\":\"UnscaleX\",\"info\":%lld", (long long) *info);
 	    }
 	}
 
@@ -744,9 +762,11 @@ dgsisx(superlu_options_t *options, SuperMatrix *A, int *perm_c, int *perm_r,
 	/* The matrix is singular to working precision. */
 	/* if ( *rcond < dlamch_("E") && *info == 0) *info = A->ncol + 1; */
 	if ( *rcond < dmach("E") && *info == 0) *info = A->ncol + 1;
+	if ( *info == A->ncol + 1 ) SLU_VHOOK("P:Phase", "\"name\":\"Warn\",\"info\":%lld", (long long) *info);
     }
 
     if ( nofact ) {
+	SLU_VHOOK("P:Phase", "\"name\":\"Cleanup\",\"info\":%lld", (long long) *info);
 	ilu_dQuerySpace(L, U, mem_usage);
 	Destroy_CompCol_Permuted(&AC);
     }
